@@ -36,12 +36,21 @@ type vfCell struct {
 	// one handler (so the old sibling's death notice is stale when the supervisor gets to it). The re-created sibling is a
 	// child like any other: a one-for-all decision reaches it, a one-for-one decision leaves it alone.
 	Respawn bool
+	// Relaunch: the failure is answered with Restart, the new incarnation fails again in its OnLaunch, and the supervisor -
+	// taking its time over the repeated failure - then decides D2r. Until that second decision is applied the failed
+	// incarnation must not handle anything (only Resume lets a failed actor continue); under Stop the mail queued behind
+	// the first failure is dead-lettered, never handled.
+	Relaunch bool
+	D2r      vivid.SupervisionDecision
 }
 
 func (c vfCell) String() string {
 	s := fmt.Sprintf("shape=%d site=%s mode=%d L1=%s/%s L2=%s/%s L3=%s provider=%v burst=%d@%d hook=%s", c.Shape, c.Site, c.Mode, c.D1, vfStratName(c.S1), vfDecName(c.D2), vfStratName(c.S2), vfDecName(c.D3), c.Provider, c.Burst, c.FailPos, c.Hook)
 	if c.Respawn {
 		s += " sibling-respawned-under-the-same-name"
+	}
+	if c.Relaunch {
+		s += " relaunch-fails-then-" + c.D2r.String()
 	}
 	return s
 }
@@ -135,6 +144,11 @@ func vfBuildTree(c vfCell) *vfTree {
 	}
 	sup1 := t.parent[t.fail]
 	t.specs[sup1].Strategy, t.specs[sup1].Decisions = c.S1, []vivid.SupervisionDecision{c.D1}
+	if c.Relaunch {
+		f.FailLaunchInc = 2
+		t.specs[sup1].Decisions = []vivid.SupervisionDecision{c.D1, c.D2r}
+		t.specs[sup1].DecisionDelay = time.Millisecond
+	}
 	if c.D1.IsEscalate() && c.S2 != vfStratNone {
 		sup2 := t.parent[sup1]
 		t.specs[sup2].Strategy, t.specs[sup2].Decisions = c.S2, []vivid.SupervisionDecision{c.D2}
@@ -332,6 +346,17 @@ func vfRunCell(c vfCell, res *vfCellResult) {
 	w.settle(time.Second)
 	w.settle(time.Second)
 
+	if c.Relaunch {
+		vfCheckRelaunch(c, t, w, burstIDs, failID, add)
+		res.viols = append(res.viols, w.oracleOverlap()...)
+		res.viols = append(res.viols, w.oracleUnpaused()...)
+		res.trace = w.traceOf()
+		res.sig = "relaunch:" + c.D2r.String()
+		if err := w.stop(); err != nil {
+			add("c07-stop-error", "supervision", "Stop after the cell returned %v", err)
+		}
+		return
+	}
 	// zombie status / registry before probes
 	acts, futs := w.registry()
 	zombies := map[string]bool{}
@@ -606,6 +631,62 @@ func vfRunCell(c vfCell, res *vfCellResult) {
 	}
 }
 
+// vfCheckRelaunch: oracle of the Relaunch cells (see vfCell.Relaunch).
+func vfCheckRelaunch(c vfCell, t *vfTree, w *vfWorld, burstIDs []int, failID int, add func(kind, key, f string, a ...any)) {
+	fp := ""
+	for x := t.fail; x != ""; x = t.parent[x] {
+		fp = "/" + x + fp
+	}
+	log := w.snapshot()
+	key := "relaunch/" + c.D2r.String()
+	// (1) from its failure until the supervisor has made up its mind (the decision maker has returned) a failed incarnation
+	// handles no user message: it is suspended, whatever the decision will be
+	failedInst, failedAt := -1, int64(0)
+	for _, e := range log {
+		switch {
+		case e.Path == fp && e.Kind == "api" && e.Msg == "fail":
+			failedInst, failedAt = e.Inst, e.T
+		case e.Kind == "api" && e.Msg == "decided" && e.Aux == fp:
+			failedInst = -1
+		case e.Path == fp && e.Kind == "recv" && e.Msg == "U" && failedInst >= 0 && e.Inst == failedInst:
+			add("c08-failed-actor-keeps-processing", key, "%s (instance %d) failed at t%d and handled user message #%d at t%d, before its supervisor had decided about that failure", fp, failedInst, failedAt, e.ID, e.T)
+			failedInst = -1
+		}
+	}
+	// (2) the fate of the mail queued behind the first failure
+	count := func(pred func(e vfEv) bool) (n int) {
+		for _, e := range log {
+			if pred(e) {
+				n++
+			}
+		}
+		return
+	}
+	behind := false
+	for _, id := range burstIDs {
+		if id == failID {
+			behind = true
+			continue
+		}
+		if !behind {
+			continue
+		}
+		np := count(func(e vfEv) bool { return e.Kind == "recv" && e.Msg == "U" && e.ID == id })
+		nd := count(func(e vfEv) bool { return e.Kind == "obs" && e.Msg == "dl:U" && e.ID == id })
+		switch {
+		case c.D1.IsGraceful():
+			// a graceful first Restart drains the queue before it restarts: handled by the first incarnation, legitimately
+			if np+nd != 1 {
+				add("c03-two-fates", key, "message #%d queued behind the first failure: handled %d times, dead-lettered %d times", id, np, nd)
+			}
+		case c.D2r.IsStop() && !c.D2r.IsGraceful() && (np != 0 || nd != 1):
+			add("c08-stop-not-applied", key, "message #%d was queued behind the first failure; the restarted incarnation failed in OnLaunch and the decision was Stop: it must be dead-lettered once and never handled (handled %d times, dead-lettered %d times)", id, np, nd)
+		case np+nd != 1:
+			add("c03-two-fates", key, "message #%d queued behind the first failure: handled %d times, dead-lettered %d times", id, np, nd)
+		}
+	}
+}
+
 func vfEnumerateCells() []vfCell {
 	var cells []vfCell
 	sites := []string{"msg", "launch", "childdead", "sched"}
@@ -643,6 +724,16 @@ func vfEnumerateCells() []vfCell {
 							}
 						}
 					}
+				}
+			}
+		}
+	}
+	// the restarted incarnation fails again in OnLaunch; second decision after a (virtual) delay
+	for _, shape := range []int{1, 2, 3} {
+		for _, s1 := range []int{vfStratOne, vfStratAll} {
+			for _, d1 := range []vivid.SupervisionDecision{vivid.SupervisionDecisionRestart, vivid.SupervisionDecisionGracefulRestart} {
+				for _, d2 := range []vivid.SupervisionDecision{vivid.SupervisionDecisionStop, vivid.SupervisionDecisionGracefulStop, vivid.SupervisionDecisionResume, vivid.SupervisionDecisionRestart} {
+					cells = append(cells, vfCell{Shape: shape, Site: "msg", D1: d1, S1: s1, Burst: 5, FailPos: 1, Relaunch: true, D2r: d2})
 				}
 			}
 		}
